@@ -296,6 +296,8 @@ def flatten_dict(
     input_dict: dict[str, Any],
     prefix: str = '',
     sep: str = '&',
+    *,
+    _nested: bool = False,
 ) -> tuple[dict[str, Any], tuple[str, ...]]:
   """Flattens potentially nested `input_dict`."""
   items = []
@@ -303,9 +305,13 @@ def flatten_dict(
   for k, v in input_dict.items():
     if sep in k:
       raise ValueError(f'Key {k} contains {sep=}. Use different name or sep.')
-    new_key = prefix + sep + k if prefix else k
+    # `_nested` distinguishes the top level from a sub-dictionary stored under
+    # an empty-string key, whose prefix is also ''.
+    new_key = prefix + sep + k if (prefix or _nested) else k
     if isinstance(v, dict) and v:
-      sub_dict, sub_empty_keys = flatten_dict(v, new_key, sep=sep)
+      sub_dict, sub_empty_keys = flatten_dict(
+          v, new_key, sep=sep, _nested=True
+      )
       items.extend(sub_dict.items())
       empty_keys.extend(sub_empty_keys)
     elif isinstance(v, dict) and not v:
